@@ -218,3 +218,72 @@ def run_abs(case):
         'states': nodes, 'transitions': max(edges, 1), 'counters': counters,
         'obs': {'schedules': len(results),
                 'results': sorted(map(repr, outcomes))[:4]}}
+
+
+# ---------------------------------------------------------------- large
+
+def large_space():
+    """disambiguate_matching on interval pairs far from the origin: one or
+    two storms of ~150 steps against two rises whose durations differ from
+    the storm's by a few steps and whose starts lie 0-150 steps away.
+    Preferences depend on differences only, whatever their magnitude."""
+    storms = [[(0, 152)], [(0, 152), (40, 190)]]
+    index = []
+    for si in range(len(storms)):
+        for s2 in (100, 150):
+            for d1 in range(-6, 7):
+                for d2 in range(-6, 7):
+                    index.append((si, s2, d1, d2))
+
+    def decode(i):
+        si, s2, d1, d2 = index[i]
+        return {'kind': 'large', 'storms': [list(s) for s in storms[si]],
+                'rises': [[0, 152 + d1], [s2, s2 + 152 + d2]]}
+    return Space('disambiguate_matching/long storms, rises 100-150 steps '
+                 'apart', len(index), decode, decoy_every=4096)
+
+
+def run_large(case):
+    storms = [tuple(s) for s in case['storms']]
+    rises = [tuple(r) for r in case['rises']]   # (start, start + steps)
+    rain_intervals, jump_intervals = [], []
+    for s in storms:
+        for r in rises:
+            rain_intervals.append(s)
+            jump_intervals.append((r[0], r[1] + 1))   # samples, not steps
+    try:
+        out = classify_mod.disambiguate_matching(list(rain_intervals),
+                                                 list(jump_intervals))
+    except Exception as exc:  # pylint: disable=broad-except
+        return [('crash:%s@disambiguate_matching' % type(exc).__name__,
+                 repr(exc)[:200])], {'nontrivial': True, 'outcome': 'exc'}
+    pairs = sorted(((int(a[0]), int(a[1])), (int(b[0]), int(b[1]) - 1))
+                   for a, b in zip(out[0], out[1]))
+
+    def skey(s, r):
+        return abs((s[1] - s[0]) - (r[1] - r[0]))
+
+    def rkey(s, r):
+        return abs(r[0] - s[0])
+    of_s = dict(pairs)
+    of_r = {r: s for s, r in pairs}
+    viol = []
+    if len(of_s) != len(pairs) or len(of_r) != len(pairs):
+        viol.append(('not-one-to-one', repr(pairs)))
+    else:
+        for s in storms:
+            for r in rises:
+                if of_s.get(s) == r:
+                    continue
+                s_ok = s not in of_s or skey(s, r) < skey(s, of_s[s])
+                r_ok = r not in of_r or rkey(s, r) < rkey(of_r[r], r)
+                if s_ok and r_ok:
+                    viol.append((
+                        'blocking-pair',
+                        'storms %r rises %r: matching %r leaves storm %r '
+                        'and rise %r, which both prefer each other'
+                        % (storms, rises, pairs, s, r)))
+                    break
+            if viol:
+                break
+    return viol, {'nontrivial': True, 'outcome': repr(pairs)}
